@@ -93,5 +93,6 @@ LEVEL_TEXT = ('Kernel-checked theorems about the model: Angle addition, subtract
               'Angle::new is canonical on the fast path unconditionally and on the general path whenever the computed total p*PI/d is finite with |total| <= 2^42 (C01_new_total: the repaired defect F1 - the lifted total is proved non-negative); '
               'the two sqrt sites (Geonum + Geonum general path, distance_to) never return NaN or a negative magnitude for any input and any libm; inv / normalize / div / invert_circle panic exactly on zero magnitude; '
               'C01_history: canonical-ness is an invariant of every sequence of angle additions, subtractions and step operators (induction over the list). '
+              'C01_closure_pure / C01_closure_encoded / C01_closure_add: every Geonum operation that does not call libm, the libm gateways that re-encode a value (dot, cos, sin, project_to_angle) and both exact paths of Geonum + Geonum return a canonical angle for canonical operands. '
               'Finite-ness of magnitudes that pass through libm is decided by the whole-program predicate c01_walk on every register (S3 for those legs). Known finding F7 (p*PI overflow) is excluded from C01_new_total by its hypothesis.')
 LEVEL_NOTE = ('Partial for the libm-dependent magnitudes. Trusted: Coq kernel + vm_compute; 4 standard-library axioms; hand-written model validated bit-for-bit each run; harness/emitter/predicates.')
